@@ -17,7 +17,7 @@ Lemma pin_visit_BoolOp_ok : pin_visit_BoolOp = "16e5f2a4f024e8fc16de"%string.
 Proof. reflexivity. Qed.
 
 (* pyanalyze/type_evaluation.py: ConditionEvaluator.visit_is_of_type *)
-Lemma pin_visit_is_of_type_ok : pin_visit_is_of_type = "307c709d67b7f853eaab"%string.
+Lemma pin_visit_is_of_type_ok : pin_visit_is_of_type = "ccc9621a02e10bbc9966"%string.
 Proof. reflexivity. Qed.
 
 (* pyanalyze/type_evaluation.py: ConditionEvaluator.visit_UnaryOp *)
@@ -65,15 +65,15 @@ Lemma pin_evaluate_ret_ok : pin_evaluate_ret = "ca79eb7f89f65a7384d9"%string.
 Proof. reflexivity. Qed.
 
 (* pyanalyze/type_evaluation.py: EvaluateVisitor.visit_block *)
-Lemma pin_visit_block_ok : pin_visit_block = "6a3a86412844b65e3ab2"%string.
+Lemma pin_visit_block_ok : pin_visit_block = "afce79d3bcd4bd61992c"%string.
 Proof. reflexivity. Qed.
 
 (* pyanalyze/type_evaluation.py: EvaluateVisitor.visit_If *)
-Lemma pin_visit_If_ok : pin_visit_If = "54cd9b6b9867b6eb2ece"%string.
+Lemma pin_visit_If_ok : pin_visit_If = "35a3d74d88feb06baaaa"%string.
 Proof. reflexivity. Qed.
 
 (* pyanalyze/type_evaluation.py: EvaluateVisitor.visit_Return *)
-Lemma pin_visit_Return_ok : pin_visit_Return = "7e16ba19d43c99786b91"%string.
+Lemma pin_visit_Return_ok : pin_visit_Return = "81f6ff8d75d680678a68"%string.
 Proof. reflexivity. Qed.
 
 (* pyanalyze/type_evaluation.py: EvaluateVisitor.visit_show_error *)
